@@ -310,18 +310,33 @@ fn c02_o1s_signable_structure() {
     let seq: i64 = kani::any();
     let vb: u8 = kani::any();
     let sb: u8 = kani::any();
+    // native replay (no stubs there: the real formatter runs): the buffer is compared with the
+    // reference encoding; bytes outside ASCII are the distinguishing inputs, and any native failure
+    // is a genuine witness whatever the inputs are
+    #[cfg(verif_replay)]
+    let (vb, sb) = (vb | 0x80, sb | 0x80);
     let a = encode_signable(seq, &[vb], None);
-    assert!(crate::verif_env::fmt_tag::calls() == 1, "C02.O1s one formatted piece without a salt");
-    assert!(a.len() == 3 && a[0] == b'#' && a[1] == b'1' && a[2] == vb, "C02.O1s signable buffer embeds the value verbatim after its header");
-    crate::verif_env::fmt_tag::reset();
     let salt = [sb];
-    let b = encode_signable(seq, &[vb], Some(&salt));
-    assert!(crate::verif_env::fmt_tag::calls() == 2, "C02.O1s two formatted pieces with a salt");
-    assert!(b.len() == 6 && b[0] == b'#' && b[1] == b'1' && b[2] == sb && b[3] == b'#' && b[4] == b'2' && b[5] == vb, "C02.O1s signable buffer embeds salt then value verbatim (any byte values)");
+    #[cfg(verif_replay)]
+    {
+        let dec = seq.to_string();
+        assert!(&*a == &ref_signable(None, dec.as_bytes(), &[vb])[..], "C02.O1s signable buffer embeds the value verbatim after its header");
+        let b = encode_signable(seq, &[vb], Some(&salt));
+        assert!(&*b == &ref_signable(Some(&salt), dec.as_bytes(), &[vb])[..], "C02.O1s signable buffer embeds salt then value verbatim (any byte values)");
+    }
+    #[cfg(not(verif_replay))]
+    {
+        assert!(crate::verif_env::fmt_tag::calls() == 1, "C02.O1s one formatted piece without a salt");
+        assert!(a.len() == 3 && a[0] == b'#' && a[1] == b'1' && a[2] == vb, "C02.O1s signable buffer embeds the value verbatim after its header");
+        crate::verif_env::fmt_tag::reset();
+        let b = encode_signable(seq, &[vb], Some(&salt));
+        assert!(crate::verif_env::fmt_tag::calls() == 2, "C02.O1s two formatted pieces with a salt");
+        assert!(b.len() == 6 && b[0] == b'#' && b[1] == b'1' && b[2] == sb && b[3] == b'#' && b[4] == b'2' && b[5] == vb, "C02.O1s signable buffer embeds salt then value verbatim (any byte values)");
+        std::mem::forget(b);
+    }
     kani::cover!(sb >= 0x80);
     kani::cover!(vb >= 0x80 && seq < 0);
     std::mem::forget(a);
-    std::mem::forget(b);
 }
 
 impl MutableItem {
